@@ -18,6 +18,7 @@ import optrun
 from common import CoqEvalError, c_bool, c_str
 
 from golem.core.dag.graph import Graph
+from golem.core.dag.linked_graph import LinkedGraph
 from golem.core.optimisers.fitness import MultiObjFitness, SingleObjFitness
 from golem.core.optimisers.genetic.operators.base_mutations import MutationStrengthEnum, MutationTypesEnum
 from golem.utilities.data_structures import ComparableEnum
@@ -113,16 +114,51 @@ def fit_key_json(t):
     return ('?', jkey(t))
 
 
+def _canon_path(cp):
+    """canonical '<module>/<qualname>' of what a class path denotes ('?<path>' when it does not resolve)"""
+    obj = real_class(cp) if isinstance(cp, str) else None
+    if obj is None:
+        return '?%s' % (cp,)
+    return '%s/%s' % (getattr(obj, '__module__', '?'), getattr(obj, '__qualname__', '?'))
+
+
+def _obj_path(obj):
+    if obj is None:
+        return None
+    fn = getattr(obj, '__func__', obj)
+    return '%s/%s' % (getattr(fn, '__module__', '?'), getattr(fn, '__qualname__', '?'))
+
+
+GRAPH_SKIP = ('operator', '_nodes', '_postprocess_nodes')
+
+
+def _mem_graph_part(g):
+    """(class, postprocess callback, extra fields) of one graph object, read from the object"""
+    extras = {k: v for k, v in vars(g).items() if k not in GRAPH_SKIP and not k.strip('_').startswith('log')}
+    return (_obj_path(type(g)), _obj_path(vars(g).get('_postprocess_nodes')), op_key(extras))
+
+
+def _json_graph_part(t):
+    extras = {k: v for k, v in t.items() if k not in GRAPH_SKIP and k != '_class_path'}
+    pp = t.get('_postprocess_nodes')
+    return (_canon_path(t.get('_class_path')), (_canon_path(pp.get('_class_path')) if isinstance(pp, dict) else pp), op_key(extras))
+
+
 def graph_key_mem(g):
+    """structure of a live graph: nodes (uid, content, parent uids) and, per graph object (delegate and the
+    operator inside it), class, node post-processing callback and every other field"""
     if g is None:
         return ('none',)
     if isinstance(g, dict):
         return ('dict', jkey(strip_cp(g)))
     if isinstance(g, Graph):
-        extras = {k: v for k, v in vars(g).items() if k not in ('operator', '_nodes', '_postprocess_nodes') and not k.strip('_').startswith('log')}
         nodes = tuple((str(n.uid), jkey(strip_cp(n.content)), tuple(str(p.uid) if not isinstance(p, str) else p for p in n.nodes_from))
                       for n in g.nodes)
-        return ('graph', nodes, jkey(strip_cp(extras)))
+        parts = [_mem_graph_part(g)]
+        inner = vars(g).get('operator')
+        if isinstance(inner, Graph):
+            parts.append(_mem_graph_part(inner))
+        return ('graph', nodes, tuple(parts))
     return ('?', jkey(g))
 
 
@@ -132,14 +168,14 @@ def graph_key_json(t):
     if isinstance(t, dict) and '_class_path' in t:
         if 'operator' in t and isinstance(t['operator'], dict) and '_nodes' in t['operator']:
             inner = t['operator']
-            extras = {k: v for k, v in t.items() if k not in ('operator', '_class_path')}
+            parts = (_json_graph_part(t), _json_graph_part(inner))
         elif '_nodes' in t:
             inner = t
-            extras = {k: v for k, v in t.items() if k not in ('_nodes', '_postprocess_nodes', '_class_path')}
+            parts = (_json_graph_part(t),)
         else:
             return ('dict', jkey(strip_cp(t)))
         nodes = tuple((str(n['uid']), jkey(strip_cp(n['content'])), tuple(n['_nodes_from'])) for n in inner['_nodes'])
-        return ('graph', nodes, jkey(strip_cp(extras)))
+        return ('graph', nodes, parts)
     if isinstance(t, dict):
         return ('dict', jkey(strip_cp(t)))
     return ('?', jkey(t))
@@ -552,6 +588,8 @@ def observe(history, tok=None, pre_text=None, legacy=False):
         o['resave_raised'] = '%s: %s' % (type(ex).__name__, ex)
     o['text_equal'] = (text == text2)
     o['fitness_ok'], o['fitness_detail'] = fitness_check(o['loaded']['_objects'], o['mem']['_objects'])
+    if o['fitness_ok']:     # the flag of the model covers the usability of the loaded payloads: fitness and graph callbacks
+        o['fitness_ok'], o['fitness_detail'] = graph_behaviour_check(o['loaded']['_objects'], o['mem']['_objects'])
     o['text'] = text
     o['_loaded_history'] = loaded
     return o
@@ -664,8 +702,40 @@ def real_history(cfg, dumps, dump_limit):
 DY = [0.0, 0.5, 1.0, 1.5, 2.0, -1.0, 3.25]
 
 
-def mk_graph(rng):
-    shape = rng.randrange(4)
+CALLS = []
+
+
+def remember_size(graph, nodes):
+    """module-level node post-processing callback of harness graphs"""
+    CALLS.append(('remember_size', len(nodes)))
+
+
+class HCallbacks:
+    @staticmethod
+    def count_nodes(graph, nodes):
+        """node post-processing callback given as a static method"""
+        CALLS.append(('count_nodes', len(nodes)))
+
+
+class HLinkedGraph(LinkedGraph):
+    """LinkedGraph subclass with extra fields"""
+
+    def __init__(self, nodes=(), postprocess_nodes=None, budget=None, tags=None):
+        super().__init__(nodes, postprocess_nodes)
+        self.budget = budget
+        self.tags = tags if tags is not None else []
+
+
+class HOptGraph(OptGraph):
+    """OptGraph subclass with an extra field, delegating to the LinkedGraph subclass"""
+
+    def __init__(self, *args, label=None, **kwargs):
+        super().__init__(*args, delegate_cls=HLinkedGraph, **kwargs)
+        self.label = label
+
+
+def mk_graph(rng, shape=None):
+    shape = rng.randrange(8) if shape is None else shape
     if shape == 0:
         return OptGraph(OptNode('a'))
     if shape == 1:
@@ -673,7 +743,48 @@ def mk_graph(rng):
     if shape == 2:
         b = OptNode('b')
         return OptGraph(OptNode('c', [OptNode({'name': 'a', 'params': {'k': 1}}, [b]), b]))
-    return OptGraph()
+    if shape == 3:
+        return OptGraph()
+    if shape == 4:      # non-default callback: module-level function
+        return OptGraph(OptNode('a', [OptNode('b'), OptNode('c')]), postprocess_nodes=remember_size)
+    if shape == 5:      # non-default callback: static method
+        return OptGraph(OptNode('a', [OptNode('b')]), postprocess_nodes=HCallbacks.count_nodes)
+    if shape == 6:      # subclasses with extra fields, default callback
+        return HOptGraph(OptNode('a', [OptNode('b')]), label='variant', budget=3, tags=['x', {'k': 1.5}])
+    return HOptGraph(OptNode('r', [OptNode('p'), OptNode('q')]), label=None, postprocess_nodes=remember_size, budget=0, tags=[])
+
+
+def graph_behaviour_check(loaded_objs, original_objs):
+    """an edit of a loaded graph triggers the node post-processing callback exactly as the same edit of the saved
+    graph does (checked on deep copies, for graphs with a non-default callback) -> (ok, detail)"""
+    import copy
+    orig = {}
+    for o in original_objs:
+        orig.setdefault(str(o.uid), o)
+    checked = 0
+    for lo in loaded_objs:
+        so = orig.get(str(lo.uid))
+        if so is None or not isinstance(so.graph, Graph) or not isinstance(lo.graph, Graph) or not so.graph.nodes:
+            continue
+        inner = vars(so.graph).get('operator', so.graph)
+        if _obj_path(vars(inner).get('_postprocess_nodes')) == 'golem.core.dag.linked_graph/LinkedGraph._empty_postprocess':
+            continue
+        traces = []
+        for g in (so.graph, lo.graph):
+            try:
+                c = copy.deepcopy(g)
+                del CALLS[:]
+                c.delete_node(c.nodes[-1])
+                c.add_node(OptNode('z'))
+                traces.append(list(CALLS))
+            except Exception as ex:
+                traces.append('raises %s: %s' % (type(ex).__name__, ex))
+        if traces[0] != traces[1]:
+            return False, 'editing the loaded graph of %s calls the post-processing callback %r, the saved graph %r' % (lo.uid, traces[1], traces[0])
+        checked += 1
+        if checked >= 4:
+            break
+    return True, ''
 
 
 # weight vectors of multi-objective fitness: default, negative, fractional, ZERO (a metric that is logged but
@@ -775,7 +886,7 @@ class Synth:
             meta = dict(mk_meta(rng))
             if spec.get('meta') is not None:
                 meta = resolve_meta(spec['meta'])
-            inds.append(Individual(mk_graph(rng), parent_operator=po, metadata=meta, fitness=fit, **kw))
+            inds.append(Individual(mk_graph(rng, spec.get('graph')), parent_operator=po, metadata=meta, fitness=fit, **kw))
         objective = ObjectiveInfo(multi, tuple(rc.get('metric_names', ())))
         h = OptHistory(objective, rc.get('save_dir')) if rc.get('objective', True) else OptHistory()
         steps = rc.get('steps')
@@ -871,6 +982,10 @@ def fixed_recipes():
                   'gens': [{'members': [0], 'meta': {'mutation_type': '@enum:simple'}},
                            {'members': [1, 0], 'label': 'evolution', 'meta': {'mutation_strength': '@strength:mean', 'nested': {'l': ['@henum:half', 1]}}}],
                   'snaps': [[0], [1, 2]], 'dump': True}))
+    R.insert(7, ('graphs with a non-default postprocess_nodes callback (function, static method) and graph subclasses with extra fields',
+                 {'inds': [{'graph': 1}, {'graph': 4}, {'graph': 5, 'op': 'mutation', 'parents': [1]}, {'graph': 6, 'op': 'crossover', 'parents': [0, 1]},
+                           {'graph': 7, 'op': 'mutation', 'parents': [3], 'evaluated': False}, {'graph': 4, 'op': 'mutation', 'parents': [4]}],
+                  'gens': [{'members': [0, 1]}, {'members': [2, 3, 5]}], 'snaps': [[1], [3, 5]], 'dump': True, 'tuning': True}))
     # incremental dumps
     R.insert(7, ('generation listing an individual twice before other members (dumped)',
                  {'inds': [{}, {}, {'op': 'mutation', 'parents': [0]}, {'op': 'crossover', 'parents': [0, 1]}],
